@@ -271,6 +271,7 @@ impl Sut {
 
     /// Open an existing device file (recovery path).
     pub fn open_existing(cfg: Cfg, path: &str, sess: Arc<Session>) -> Result<Sut, FeoxError> {
+        let _call = crate::util::in_call("open (recovery)");
         sess.install();
         let store = Self::build(&cfg, Some(path), crate::util::COUNTER.fetch_add(1, Ordering::Relaxed))?;
         Ok(Sut { store: Some(Arc::new(store)), path: Some(path.to_string()), cfg, sess, owns_file: false })
@@ -282,6 +283,7 @@ impl Sut {
 
     pub fn close(&mut self) {
         if let Some(store) = self.store.take() {
+            let _call = crate::util::in_call("close (drop)");
             self.sess.install();
             drop(store);
             // every worker of that store has exited (a worker that saw the shutdown flag
@@ -360,6 +362,7 @@ impl Sut {
 
     /// Apply one operation; never panics (a panic in the store becomes `Out::Panic`).
     pub fn apply(&mut self, t: &Tables, op: &Op) -> Out {
+        let _call = crate::util::in_call("api call");
         self.sess.install();
         crate::sched::take_thread_timestamp();
         match *op {
